@@ -10,8 +10,10 @@ variants are printed, which differ in
      after lists / code / quotes), alone or adjacent to other definitions, two definitions in ONE block on consecutive lines;
    * label case, independently at definition and use (ASCII letters only: one-to-one case mapping); for `[id][]` / `[id]` the
      use-site text IS the rendered text, so only the definition side is re-cased there;
-   * inner white space of multi-word labels at the USE site of full references: one space <-> several spaces <-> a line break
-     (line break only where the use block may span lines: paragraphs, list items, quotes); the definition keeps single spaces;
+   * inner white space of multi-word labels at the USE site: one space <-> several spaces <-> a line break (line break only where the
+     use block may span lines: paragraphs, list items, quotes); the definition keeps single spaces.  In the 3 exact variants only full
+     references are re-spaced (there the label is not rendered); a 4th variant re-spaces EVERY use form -- `[id][]`, `[id]`, `![id][]`,
+     `![id]` too, where the label is also the rendered text / alt -- and is compared with D0 modulo white space;
    * title spelling "t" / 't' / (t) (only spellings whose delimiter does not occur in the title), on the same line or on the
      next line (any indentation); `<url>` / bare url; 0..3 spaces before the definition, 0..3 after the colon, url on the next line.
 Required:
@@ -23,7 +25,8 @@ Required:
    (5) D0 renders exactly like the document without definitions in which every defined use is replaced by the equivalent INLINE
        link `[text](<url> "title")` / image (only when no title contains `"` and no url contains `<>()` or spaces) -- so the
        definitions leave no trace and the surrounding text is untouched.
-Labels: words of ASCII letters, digits, `-`, single inner spaces; never equal (case-insensitively) to a link text or to a word of the
+Labels: words of ASCII letters, digits, `-`, single inner spaces, plus labels with characters whose case mapping is not one-to-one
+(`ß ẞ ſ ﬁ ﬆ İ ı ŉ ǅ և`, Greek words with final sigma): these are spelt identically at definition and use (no case variants) and must resolve; never equal (case-insensitively) to a link text or to a word of the
 fillers.  Titles may contain `& ' " * _ < ( )` where the spelling allows; urls `& _ % # ( )`; neither contains entities.
 C15 has no known finding.
 """
@@ -34,7 +37,11 @@ from gen import docs2 as docs
 NEEDS_DRIVER = False
 FINDINGS = []
 
-LABELS = ['ref', 'Ref Two', 'my id', 'k9', 'a-b', 'ID three x', 'zed', 'Long label here', 'q1 q2', 'U']
+LABELS = ['ref', 'Ref Two', 'my id', 'k9', 'a-b', 'ID three x', 'zed', 'Long label here', 'q1 q2', 'U', 'line break', 'one two three four']
+# Labels with characters whose case mapping is NOT one-to-one or is context dependent (lower() != casefold(), multi-code-point lower(),
+# final sigma, ligatures, title-case digraphs).  They are spelt IDENTICALLY at definition and use (no case variation) -- then they must
+# resolve; each of them does on the unchanged tree in all six use forms (checked when the list was made).
+LABELS_NONASCII = ['Straße', 'große Straße', 'ſtop', 'ﬁne print', 'İstanbul', 'ΟΔΟΣ', 'ὀδός x', 'ǅ x', 'ŉ', 'ΑΣ ΣΑΣ', 'ẞ', 'ﬆ', 'ք և', 'Åland', 'I ı']
 URLS = ['/u', 'http://e.x/p?a=1&b=2', 'rel/path_with_under_scores', '#frag', 'u(1)', 'x%20y', 'http://e.x/é', 'mailto:a@b.c', '../up.html', 'u*v*w', '/a&b']
 TITLES = [None, None, 't', 'A title', "it's", 'say "hi"', 'a & b', '*not em*', 'x < y', '_u_ & `c`', ' padded ', 'a (b) c', 'T']
 _UNESC = {'amp': '&', 'lt': '<', 'gt': '>', 'quot': '"'}
@@ -45,6 +52,7 @@ def unescape(s):
 
 
 def recase(rng, s):
+    if not s.isascii(): return s          # case VARIANTS only for characters with a one-to-one case mapping (ASCII letters)
     k = rng.random()
     if k < 0.3: return s
     if k < 0.5: return s.upper()
@@ -60,7 +68,7 @@ def respace(rng, s, newline_ok):
 # ---------------------------------------------------------------- spec
 def gen_spec(rng):
     nlab = rng.choice([1, 1, 2, 2, 3, 4])
-    labels = rng.sample(LABELS, nlab)
+    labels = rng.sample(LABELS + LABELS_NONASCII, nlab)
     defs = {l: (rng.choice(URLS), rng.choice(TITLES)) for l in labels}
     uses = []          # one use block each
     k = 0
@@ -126,8 +134,9 @@ def def_source(rng, label, url, title, canonical=False):
     return s
 
 
-def render(rng, spec, canonical):
-    """-> source text"""
+def render(rng, spec, canonical, ws_all=False):
+    """-> source text.  ws_all: the use-site white-space variation is applied to EVERY use form (also `[id][]`, `[id]`, `![id][]`, `![id]`, where
+    the label is the rendered text / alt as well -- such a variant is compared with D0 modulo white space)"""
     blocks = []
     for kind, x in spec['order']:
         if kind == 'fill': blocks.append(x); continue
@@ -136,7 +145,9 @@ def render(rng, spec, canonical):
             lab = u['label']
         else:
             lab = u['label']
-            if u['form'] in ('full', 'full_sp', 'img'):
+            if ws_all and u['form'] not in ('full', 'full_sp', 'img'):
+                lab = respace(rng, lab, newline_ok=u['ctx'] in ('para', 'para2', 'li', 'li_loose', 'quote'))
+            elif u['form'] in ('full', 'full_sp', 'img'):
                 lab = respace(rng, recase(rng, lab), newline_ok=u['ctx'] in ('para', 'para2', 'li', 'li_loose', 'quote'))
         blocks.append(use_block(u, use_inline(u, lab)))
     dsrc = [def_source(rng, l, spec['defs'][l][0], spec['defs'][l][1], canonical) for l in spec['labels']]
@@ -211,7 +222,10 @@ def literal_error(out, spec):
     return None
 
 
-def evaluate_sources(d0, variants, spec=None, defs_src=None, inline_src=None, md=None):
+_WS = re.compile(r'\s+')
+
+
+def evaluate_sources(d0, variants, spec=None, defs_src=None, inline_src=None, md=None, ws_variants=()):
     """-> list of (what, observed, required)"""
     md = md or markdown.Markdown()
     o0 = md.reset().convert(d0)
@@ -219,6 +233,10 @@ def evaluate_sources(d0, variants, spec=None, defs_src=None, inline_src=None, md
     for v in variants:
         o = md.reset().convert(v)
         if o != o0: bad.append(('variant renders differently', {'variant': v}, repr(o), repr(o0)))
+    for v in ws_variants or ():
+        o = md.reset().convert(v)
+        if _WS.sub(' ', o) != _WS.sub(' ', o0):
+            bad.append(('variant with re-spaced labels in collapsed / short forms renders differently (modulo white space)', {'variant': v}, repr(o), repr(o0)))
     if spec is not None:
         for e in attr_errors(o0, spec): bad.append((e, {}, repr(o0), 'see message'))
         e = literal_error(o0, spec)
@@ -250,24 +268,28 @@ def search(driver, rng, n):
         spec = gen_spec(rng)
         d0 = render(rng, spec, True)
         variants = [render(rng, spec, False) for _ in range(3)]
+        wsv = [render(rng, spec, False, ws_all=True)]
         dsrc = defs_only(rng, spec)
         inl = render_inline_equiv(spec) if simple_for_inline(spec) else None
         cases += 1
         for kind, u in spec['order']:
             if kind == 'use': bump('form:' + u['form']); bump('ctx:' + u['ctx'])
         bump('labels:%d' % len(spec['labels']))
+        for l in spec['labels']:
+            if not l.isascii(): bump('label:non-ascii')
+            if ' ' in l: bump('label:multi-word')
         if inl is not None: bump('inline-equivalent-checked')
         for _, t in spec['defs'].values(): bump('title:' + ('none' if t is None else 'some'))
         try:
-            bad = evaluate_sources(d0, variants, spec, dsrc, inl, md)
+            bad = evaluate_sources(d0, variants, spec, dsrc, inl, md, wsv)
         except RecursionError:
             bump('skip:recursion'); md = markdown.Markdown(); continue
         except Exception as e:
             md = markdown.Markdown(); bump('exception:' + type(e).__name__)
-            viol.append(_exc_violation(e, {'canonical': d0, 'variants': variants, 'defs_only': dsrc, 'inline_equivalent': inl, 'spec': spec}, {}, d0)); continue
+            viol.append(_exc_violation(e, {'canonical': d0, 'variants': variants, 'ws_variants': wsv, 'defs_only': dsrc, 'inline_equivalent': inl, 'spec': spec}, {}, d0)); continue
         seen.add(d0)
         for what, extra, obs, req in bad:
-            inp = {'canonical': d0, 'variants': variants, 'defs_only': dsrc, 'inline_equivalent': inl, 'spec': spec}
+            inp = {'canonical': d0, 'variants': variants, 'ws_variants': wsv, 'defs_only': dsrc, 'inline_equivalent': inl, 'spec': spec}
             inp.update(extra)
             viol.append({'input': inp, 'config': {}, 'observed': what + ': ' + obs, 'required': req, 'finding': None})
             break
@@ -276,12 +298,13 @@ def search(driver, rng, n):
 
 
 def replay(witness):
-    return bool(evaluate_sources(witness['canonical'], witness.get('variants', []), None, witness.get('defs_only'), witness.get('inline_equivalent')))
+    return bool(evaluate_sources(witness['canonical'], witness.get('variants', []), None, witness.get('defs_only'), witness.get('inline_equivalent'), None,
+                                 witness.get('ws_variants', [])))
 
 
 def replay_violation(v):
     i = v['input']
     try:
-        return bool(evaluate_sources(i['canonical'], i['variants'], i.get('spec'), i.get('defs_only'), i.get('inline_equivalent')))
+        return bool(evaluate_sources(i['canonical'], i['variants'], i.get('spec'), i.get('defs_only'), i.get('inline_equivalent'), None, i.get('ws_variants', [])))
     except Exception:
         return True
